@@ -205,27 +205,45 @@ func cellFromCellBlock(b []byte) (*pb.Cell, uint32, error) {
 		return nil, 0, fmt.Errorf(
 			"buffer is too small: expected %d, got %d", int(kvLen)+4, len(b))
 	}
+	// the fixed-size parts of a KeyValue: rowKeyLen, valueLen, keyLen,
+	// familyLen, timestamp and cellType
+	const minKVLen = 4 + 4 + 2 + 1 + 8 + 1
+	if kvLen < minKVLen {
+		return nil, 0, fmt.Errorf(
+			"KeyValue is too short: expected at least %d, got %d", minKVLen, kvLen)
+	}
+	// don't look past the end of this KeyValue
+	b = b[:int(kvLen)+4]
 
 	rowKeyLen := binary.BigEndian.Uint32(b[4:8])
 	valueLen := binary.BigEndian.Uint32(b[8:12])
 	keyLen := binary.BigEndian.Uint16(b[12:14])
 	b = b[14:]
 
+	if len(b) < int(keyLen)+1 {
+		return nil, 0, fmt.Errorf("HBase has lied about row key length: %d", keyLen)
+	}
 	key := b[:keyLen]
 	b = b[keyLen:]
 
 	familyLen := b[0]
 	b = b[1:]
 
+	if len(b) < int(familyLen) {
+		return nil, 0, fmt.Errorf("HBase has lied about family length: %d", familyLen)
+	}
 	family := b[:familyLen]
 	b = b[familyLen:]
 
+	if rowKeyLen < uint32(keyLen)+uint32(familyLen)+2+1+8+1 {
+		return nil, 0, fmt.Errorf("HBase has lied about key length: %d", rowKeyLen)
+	}
 	qualifierLen := rowKeyLen - uint32(keyLen) - uint32(familyLen) - 2 - 1 - 8 - 1
 	if 4 /*rowKeyLen*/ +4 /*valueLen*/ +2 /*keyLen*/ +
-		uint32(keyLen)+1 /*familyLen*/ +uint32(familyLen)+qualifierLen+
-		8 /*timestamp*/ +1 /*cellType*/ +valueLen != kvLen {
+		uint64(keyLen)+1 /*familyLen*/ +uint64(familyLen)+uint64(qualifierLen)+
+		8 /*timestamp*/ +1 /*cellType*/ +uint64(valueLen) != uint64(kvLen) {
 		return nil, 0, fmt.Errorf("HBase has lied about KeyValue length: expected %d, got %d",
-			kvLen, 4+4+2+uint32(keyLen)+1+uint32(familyLen)+qualifierLen+8+1+valueLen)
+			kvLen, 4+4+2+uint64(keyLen)+1+uint64(familyLen)+uint64(qualifierLen)+8+1+uint64(valueLen))
 	}
 	qualifier := b[:qualifierLen]
 	b = b[qualifierLen:]
